@@ -86,8 +86,10 @@ type Exec struct {
 	raceLog   []string
 	entVC     map[*MapEnt]vclock
 	permCache [][]*MapEnt
+	atomVC    map[*Cell]vclock
 	decided   map[string]bool
 	lastIn    ssa.Instruction
+	uf        map[string]BoolV
 	hostDone  chan struct{}
 }
 
